@@ -31,6 +31,11 @@ ASSUMPTIONS = [
     'hex code) the oracle has no name and the entry is unjudged; differences recorded in oracle_gaps_C18.json '
     'could not be decided offline and are unjudged as well',
     'the tolerated differences are exactly those of the project\'s compare_output (vendored copy)',
+    'generated location/range lists contain no base-address selection entries: the clone prints them in the layout of readelf 2.41 '
+    '("offset base (base address)"), readelf 2.40 prints "offset ffffffff base (base address)"',
+    'string dumps (-p) are generated from 7-bit bytes without DEL: bytes >= 0x80 depend on the locale and GNU prints DEL as "^" + 0xbf',
+    'symbol tables are generated without STT_GNU_IFUNC / STB_GNU_UNIQUE and notes without annobin/stapsdt owners: the clone\'s '
+    'description tables have no entries for them',
 ]
 KINDS = {'corpus': (288, 864, 0), 'compiled': (18, 52, 1), 'descr': (60, 60, 2), 'dwdescr': (40, 40, 1), 'generated': (120, 1500, 4)}
 FLOOR = {'quick': 150, 'thorough': 600}
@@ -486,17 +491,20 @@ def descr_tables():
     T.append(('d_tag/aarch64', '-d', tagset(E.ENUM_D_TAG_AARCH64), dyn_builder(183), dynline))
     T.append(('d_tag/solaris', '-d', tagset(E.ENUM_D_TAG_SOLARIS), dyn_builder(2, 6), dynline))
 
-    def dflag_builder(tag):
+    def dflag_builder(tag, machine=62):
         def b(code):
             tags = [(5, 0x2000), (6, 0x2100), (10, 8), (11, 24), (tag, code), (0, 0)]
             dyn = b''.join(struct.pack('<qQ', t, v) for t, v in tags)
             secs = [elfgen.Sec('.dynstr', 3, flags=2, data=b'\0lib.so\0', addr=0x2000),
                     elfgen.Sec('.dynsym', 11, flags=2, data=bytes(24), link='.dynstr', info=1, entsize=24, addr=0x2100, align=8),
                     elfgen.Sec('.dynamic', 6, flags=3, data=dyn, link='.dynstr', entsize=16, addr=0x3000, align=8)]
-            return elfgen.build(cls=64, le=True, machine=62, etype=3, sections=secs,
+            return elfgen.build(cls=64, le=True, machine=machine, etype=3, sections=secs,
                                 segments=[elfgen.Seg(type=1, sec='.dynstr', vaddr=0x2000), elfgen.Seg(type=1, sec='.dynsym', vaddr=0x2100),
                                           elfgen.Seg(type=2, sec='.dynamic', vaddr=0x3000)])[0]
         return b
+    from elftools.elf.constants import RH_FLAGS
+    T.append(('DT_MIPS_FLAGS', '-d', [(k, v) for k, v in sorted(vars(RH_FLAGS).items()) if k.startswith('RHF_') and isinstance(v, int) and v],
+              dflag_builder(0x70000005, 8), dynline))
     T.append(('DT_FLAGS', '-d', [(k, v) for k, v in E.ENUM_DT_FLAGS.items() if isinstance(v, int)], dflag_builder(30), dynline))
     T.append(('DT_FLAGS_1', '-d', [(k, v) for k, v in E.ENUM_DT_FLAGS_1.items() if isinstance(v, int)], dflag_builder(0x6ffffffb), dynline))
 
@@ -946,7 +954,8 @@ def gen_families():
             ('dumps', ['-x.text', '-p.comment', '-x.comment', '-p.text', '-x.empty', '-x.bss', '-p.shstrtab'], dynobj.gen_dump_file),
             ('lines', ['--debug-dump=decodedline'], dwenv.gen_lines_file),
             ('frames', ['--debug-dump=frames', '--debug-dump=frames-interp'], dwenv.gen_frames_file),
-            ('names', ['--debug-dump=aranges', '--debug-dump=pubnames', '--debug-dump=pubtypes', '--debug-dump=info'], dwenv.gen_names_file)]
+            ('names', ['--debug-dump=aranges', '--debug-dump=pubnames', '--debug-dump=pubtypes', '--debug-dump=info'], dwenv.gen_names_file),
+            ('loclists', ['--debug-dump=loc', '--debug-dump=Ranges', '--debug-dump=info'], dwenv.gen_loc_file)]
 
 
 def mask(line):
